@@ -302,6 +302,35 @@ UNITS.append(
     )
 )
 
+# time-varying shifts (one per sample): wherever the stencil is interior the output is the tap-weighted stencil that
+# starts at j + floor(s_j) - (h-1) - the same expression as the constant path, so the two paths agree there (the taps
+# of row j are lagrange_taps' values for the fraction s_j - floor(s_j); their values are the exact units above)
+UNITS.append(
+    Unit(
+        id="dsp.timeshift[time-varying]",
+        module=M,
+        func="timeshift",
+        props=["C16"],
+        ghosts={"n": ("int", "len(data)"), "h": ("int", "(order + 1)//2")},
+        params={"data": ("arr", "real", ("n",)), "shifts": ("arr", "real", ("n",)), "order": "int"},
+        requires=["n >= 2", "order >= 1", "order % 2 == 1"],
+        ensures={
+            "all_zero_shifts_are_the_identity": "implies(forall(0, n, lambda j: shifts[j] == 0), result is data)",
+            "length_kept": "len(result) == n",
+            # total description: the stencil of the zero-padded record at the clipped position ...
+            "stencil_of_the_zero_padded_record": "forall(0, n, lambda j: result[j] == Sum(0, 2*halfp, lambda k: TAPS[j, k] * zp(cl(j + floor(shifts[j])) - (halfp - 1) + k))) and halfp == h if HAVE_TAPS else forall(0, n, lambda j: shifts[j] == 0)",
+            # ... and wherever the stencil is interior neither the clipping nor the zero padding is active: the samples
+            # entering the sum are data[j + floor(s_j) - (h-1) + k], k = 0..2h-1 - the constant path's stencil
+            "interior_stencil_reads_the_record": "forall(0, n, lambda j: implies(0 <= j + floor(shifts[j]) - (h - 1) and j + floor(shifts[j]) + h <= n - 1, forall(0, 2*h, lambda k: zp(cl(j + floor(shifts[j])) - (halfp - 1) + k) == data[j + floor(shifts[j]) - (h - 1) + k]))) if HAVE_TAPS else forall(0, n, lambda j: shifts[j] == 0)",
+            "fractions_in_unit_interval": "forall(0, n, lambda j: 0 <= FRACS[j] and FRACS[j] < 1 and FRACS[j] == shifts[j] - floor(shifts[j])) if HAVE_TAPS else True",
+            "input_not_written": "forall(0, n, lambda j: data[j] == old_data[j])",
+        },
+        raises={},
+        post_hook=lambda eng, st, fid, res, entry: (st.tags.setdefault("ghosts", {}).__setitem__("HAVE_TAPS", "TAPS" in st.tags.get("ghosts", {})), st.tags["ghosts"].setdefault("TAPS", None), st.tags["ghosts"].setdefault("FRACS", None)),
+        opts={"callee": False, "sat_level": 1, "ghost_defs": {"zp": "lambda q: ite(0 <= q and q < n, data[q], 0)", "cl": "lambda q: ite(q < -(halfp + 1), -(halfp + 1), ite(q > n + (halfp - 1), n + (halfp - 1), q))"}},
+    )
+)
+
 _orig = None
 
 
@@ -314,6 +343,7 @@ def install(eng):
             eng_.set_ghost("TAPS", res, st)
             sf = eng_.deref(st, eng_.lookup(st, fid, "shift_fracs"))
             eng_.set_ghost("FRAC", sf.fn(()) if not sf.shape else sf.fn((0,)), st)
+            eng_.set_ghost("FRACS", sf, st)
 
         u.call_post = call_post
 
